@@ -26,6 +26,17 @@ go build ./... || { echo "does not build"; exit 2; }
 with=$(go test -count=1 -run "$RUNPAT" "./$DEMODIR/" 2>&1 | tail -1)
 rm -f "$WT/$DEMODIR/zz_seed_demo_test.go"
 suite=$(go test -count=1 -timeout 25m ./... 2>&1 | grep -E "^(FAIL|---)" | grep -v "TestConcurrentWriterFailsOnInit\|TestSerialWriterFailsOnInitForUnexistingFile\|internal/auditlog" )
+if [ -n "$suite" ]; then
+  # timing-sensitive tests (http, http/e2e) fail under machine load: a package counts as failing only if it fails 3 times in a row
+  still=""
+  for pkg in $(echo "$suite" | grep "^FAIL" | awk '{print $2}' | sort -u); do
+    [ -z "$pkg" ] && continue
+    ok=0
+    for i in 1 2 3; do if go test -count=1 "$pkg" >/dev/null 2>&1; then ok=1; break; fi; done
+    [ $ok -eq 0 ] && still="$still $pkg"
+  done
+  if [ -z "$still" ]; then suite=""; else suite="packages failing 3 times in a row:$still"; fi
+fi
 crs=$(cd testing/coreruleset && go test -count=1 -timeout 25m ./... 2>&1 | tail -1)
 cd "$V"
 det=$("$V/verif" mutant "$OUT/patch.diff" "$ID" "$TIER" 2>&1); rc=$?
